@@ -239,6 +239,12 @@ func compareVersionPrerelease(a, b string) int {
 			if len(dx) > len(dy) {
 				return 1
 			}
+
+			if dx < dy { // NOTE same length numbers
+				return -1
+			}
+
+			return 1
 		case dx < dy:
 			return -1
 		default:
